@@ -220,6 +220,39 @@ def run_model(acc, rng, model, extra, ident0, sig):
                     acc.violation(f"C16/{method}/validate-accepts-infeasible-sample", "validate() says 'v' for a sample shifted by 1000 in one coordinate", ident)
             except Exception as e:
                 acc.violation(f"C16/{method}/validate-raised/{type(e).__name__}", f"validate raised {type(e).__name__}: {str(e)[:120]}", ident)
+        # the same sampler object asked again (its centre and previous point carry over)
+        if sampler is not None and rng.random() < 0.6:
+            again_bad = None
+            try:
+                with warnings.catch_warnings():
+                    warnings.simplefilter("ignore")
+                    for rep in range(rng.randint(1, 2)):
+                        dfb = draw(sampler)
+                        acc.count("repeated_draws_on_one_sampler")
+                        arrb = dfb.to_numpy()
+                        for i in range(len(arrb)):
+                            eq, bd = independent_errors(model, extra, arrb[i], space, list(dfb.columns))
+                            acc.count("samples_checked")
+                            if eq > 2 * tol or bd > 2 * tol:
+                                again_bad = (rep + 2, i, eq, bd)
+                                break
+                        if again_bad:
+                            break
+            except RuntimeError as e:
+                if "Cannot escape sampling region" in str(e):
+                    acc.count("sampler_gave_up_cannot_escape_region")
+                else:
+                    acc.violation(f"C16/{method}/raised/RuntimeError", f"second draw on the same sampler raised RuntimeError: {str(e)[:160]}", ident)
+            except Exception as e:
+                acc.violation(f"C16/{method}/raised/{type(e).__name__}", f"second draw on the same sampler raised {type(e).__name__}: {str(e)[:160]}", ident)
+            if again_bad:
+                kind = "steady-state-or-equality" if again_bad[2] > 2 * tol else "bound-or-inequality"
+                acc.violation(
+                    f"C16/{method}/infeasible-sample/{kind}/repeated-draw" + ("/extra-constraint-model" if extra else ""),
+                    f"draw {again_bad[0]} on the same sampler: sample {again_bad[1]} violates {kind}: equality residual {again_bad[2]:.3g}, bound violation {again_bad[3]:.3g} (tolerance {tol})",
+                    dict(ident, draw=again_bad[0], row=again_bad[1]),
+                )
+                continue
         # reproducibility for the same seed
         if call == 0 or rng.random() < 0.4:
             try:
@@ -277,7 +310,7 @@ def run_shard(desc, acc):
             acc.count("skipped_fewer_than_2_free_dimensions")
             continue
         extra = []
-        if rng.random() < 0.35:
+        if rng.random() < 0.45:
             for k in range(rng.randint(1, 2)):
                 rs = rng.sample(list(model.reactions), min(2, len(model.reactions)))
                 coefs = {r.id: rng.choice([1, -1, 2]) for r in rs}
@@ -285,7 +318,15 @@ def run_shard(desc, acc):
                 # keep the problem feasible: bounds around the value at the FBA solution
                 sol = model.optimize()
                 val = sum(c * sol.fluxes[rid] for rid, c in coefs.items())
-                lb, ub = rng.choice([(val - 5, val + 5), (None, val + 3), (val - 2, None)])
+                shapes = [(val - 5, val + 5), (None, val + 3), (val - 2, None)]
+                if abs(val) > 1e-6:
+                    shapes.append((val, val))  # equality with a non-zero right-hand side
+                if abs(val) >= 2:
+                    # a range far narrower than its magnitude but far wider than the tolerance
+                    shapes.append((val - 5e-6 * abs(val), val) if val > 0 else (val, val + 5e-6 * abs(val)))
+                    shapes.append((val - 5e-6 * abs(val), val) if val > 0 else (val, val + 5e-6 * abs(val)))
+                lb, ub = rng.choice(shapes)
+                acc.add("extra_constraint_shapes", "equality" if lb == ub else ("narrow-range" if lb is not None and ub is not None and ub - lb < 1e-3 * max(1.0, abs(ub)) else "range-or-one-sided"))
                 model.add_cons_vars([model.problem.Constraint(expr, lb=lb, ub=ub, name=f"extra_{k}")])
                 extra.append((coefs, lb, ub))
             acc.count("models_with_extra_constraints")
